@@ -271,7 +271,7 @@ func init() {
 				Bound: "both roles; 24 symbolic input bytes (2 header bytes, the 16/64-bit extended length incl. 2^63 and above, mask key, payload); state readFinal/readLength/readLimit symbolic; close frames up to code + 2 reason bytes, ping/pong up to 8 bytes"},
 			{Pkg: "websocket", Func: "HarnessC14_Seq", TimeFixed: true, Labels: []string{"seq-close", "seq-eof", "seq-limit", "seq-violation"},
 				Bound:  "both roles; sequences of 2 frames over 16 frame kinds (8 conformant incl. fragments/ping/pong/close, 8 violating: RSV, reserved opcode, fragmented or oversized control, wrong mask, bad close code, non-UTF-8 reason, top-bit length); first frame in 7/16/64-bit length form with 0/1/3 symbolic payload bytes; read limit in {none, 2}",
-				BoundT: "sequences of 3 frames; read limit in {none,2,4}"},
+				BoundT: "sequences of 3 frames; read limit in {none,2}; not re-measured after the last reduction: a run that exceeds the 25-minute budget reports the truncation"},
 			{Pkg: "websocket", Func: "HarnessC14_LimitAcross", TimeFixed: true, Labels: []string{"across-limit", "across-ok"}, Bound: "a message of two fragments (1-2 + 1-2 symbolic bytes) with 0-2 empty pings/pongs between them, read limit 1..4"},
 			{Pkg: "websocket", Func: "HarnessC14_SmallBuf", TimeFixed: true, Labels: []string{"smallbuf"}, Bound: "configured read buffer of 1/16/64/124 bytes; a ping of 17/65/125 bytes (2 symbolic positions) followed by a 2-byte message"},
 			{Pkg: "websocket", Func: "HarnessC14_Cut", TimeFixed: true, Labels: []string{"cut"}, Bound: "one message of 1-2 frames (1-3 + 0-2 symbolic bytes, 7/16-bit length form) cut at every offset inside it; whole and 1-byte reads"},
